@@ -1,5 +1,21 @@
 /* Specification vocabulary for src/utils/bt_encode.c (C12): bencode decoder and dictionary lookup.
  *
+ * STATUS: NO JOB OF THIS UNIT IS REGISTERED (see obligations/C12.d/bt_encode.json, not_covered).
+ * The harness harness/C12/bt_decode.c and this file are kept for the next attempt:
+ *   - symbolic execution of bt_en_decode does not finish within 20-40 min even for 3..6 input
+ *     bytes: six recursive call sites per level, the recursive bt_en_free on every error path and
+ *     the 64-entry pre-allocated item arrays (realloc_items) that are re-allocated at the end;
+ *     --dfcc --enforce-contract-rec (one level, recursion replaced by contract) needs > 512
+ *     objects and > 20 GB;
+ *   - CBMC 6.11 loses a pointer that is stored in a non-first member of the `val` union of
+ *     bt_en_node_t and then dereferenced (node->val.d[i].key, node->val.l[i]): the access goes to
+ *     `invalid_object`, so every walk over a decoded tree (bt_en_free, bt_dict_find, vf_bt_wf
+ *     below) raises false alarms.  Reproducer: struct S { union { uint8_t *s; struct D *d; } val; };
+ *     p->val.d = arr; p->val.d[0].key = &x; assert(arr[0].key == &x) fails.
+ * The defects of bt_en_decode listed in proposed_fixes/bt_encode-decode-bounds.diff were found by
+ * reading the code against this specification and are confirmed by the native ASan/UBSan
+ * program proposed_fixes/bt_encode-decode-bounds-demo.c.
+ *
  * bt_en_decode is recursive and builds a heap tree; its "contract" is stated as an executable
  * well-formedness predicate over the returned tree (vf_bt_wf below) that the bounded plain
  * harness harness/C12/bt_decode.c asserts:
@@ -35,48 +51,6 @@ void *reallocarray(void *ptr, size_t nmemb, size_t size) {
 	}
 	return (realloc(ptr, nmemb * size));
 }
-#endif
-
-#if defined(VF_BT_DFCC) && !defined(VF_REPLAY)
-/* ------------------------------------------------------------------------------------------
- * Modular contract of ONE level of bt_en_decode (jobs bt_encode.decode_rec.*, goto-instrument
- * --enforce-contract-rec): the recursive calls are replaced by this same contract (induction
- * on the buffer length: every recursive call gets a strictly shorter buffer, cur_pos >= buf + 1),
- * bt_en_free by the contract below.  What a caller may rely on after success: a fresh node whose
- * raw span lies inside buf, a consumed length 1..buf_size; after failure: no node.
- * At the recursive call sites the requires clause is ASSERTED: the sub-buffer handed down must
- * be readable, i.e. lie inside the caller's buffer.
- * ------------------------------------------------------------------------------------------ */
-/* the node handed back: known type, raw span inside the buffer, byte string = its raw span */
-static int
-vf_bt_node_ok(const bt_en_node_t *node, const uint8_t *buf, size_t buf_size) {
-	return (node->type <= BT_EN_TYPE_DICT &&
-	    VF_PTR_INSIDE(node->raw, buf, buf_size) &&
-	    VF_INSIDE(node->raw, node->raw_size, buf, buf_size) &&
-	    (node->type != BT_EN_TYPE_STR || (node->val.s == node->raw && node->val_count == 1)));
-}
-int bt_en_decode(uint8_t *buf, size_t buf_size, bt_en_node_p *ret_data, size_t *ret_buf_off)
-__CPROVER_requires(buf_size <= VF_BT_MAX)
-__CPROVER_requires(buf == NULL || __CPROVER_is_fresh(buf, buf_size))
-__CPROVER_requires(ret_data == NULL || __CPROVER_w_ok(ret_data, sizeof(bt_en_node_p)))
-__CPROVER_requires(ret_buf_off == NULL || __CPROVER_w_ok(ret_buf_off, sizeof(size_t)))
-__CPROVER_assigns(ret_data != NULL: *ret_data; ret_buf_off != NULL: *ret_buf_off)
-__CPROVER_ensures(__CPROVER_return_value == 0 || __CPROVER_return_value == EINVAL ||
-    __CPROVER_return_value == EBADMSG || __CPROVER_return_value == ENOMEM)
-__CPROVER_ensures((buf == NULL || buf_size == 0 || ret_data == NULL) ==> __CPROVER_return_value == EINVAL)
-__CPROVER_ensures((__CPROVER_return_value != 0 && __CPROVER_return_value != EINVAL) ==> *ret_data == NULL)
-__CPROVER_ensures(__CPROVER_return_value == 0 ==> __CPROVER_is_fresh(*ret_data, sizeof(bt_en_node_t)))
-__CPROVER_ensures(__CPROVER_return_value == 0 ==> vf_bt_node_ok(*ret_data, buf, buf_size))
-/* the consumed length stays inside the buffer */
-__CPROVER_ensures((__CPROVER_return_value == 0 && ret_buf_off != NULL) ==>
-    (*ret_buf_off >= 1 && *ret_buf_off <= buf_size))
-;
-void bt_en_free(bt_en_node_p node)
-__CPROVER_requires(node == NULL || __CPROVER_is_freeable(node))
-__CPROVER_assigns()
-__CPROVER_frees(node)
-__CPROVER_ensures(node == NULL || __CPROVER_was_freed(node))
-;
 #endif
 
 /* span (p, n) inside buf[0..buf_size) - plain C, also compiled natively */
